@@ -283,6 +283,26 @@ def check_sections(fx, rep, rule, wv, seqs):
             got = strip_cast_t(off[1]) if off else None
             key = "%s/tiling/%s_offset<-%s" % (rule.split(".")[0], X, "len(%s)" % (got[2][0][1] if got and got[0] == "call" and got[2] and got[2][0][0] == "loop" else "?"))
             good = off is not None and got == want_off
+            if not good and off is not None and got is not None and got[0] == "loop" and got[2] == idx:
+                # alternative: a running total. offset <- V where V is 0 before the flatten loop and every iteration adds exactly
+                # this class's own entry count for this section (per-class counts = pushes: the counter-pairing rule)
+                V = got[1]
+                vid = None
+                for n_ in F.walk(rl.body["body"]):
+                    if n_.get("k") == "Block":
+                        for s_ in n_["stmts"]:
+                            if s_["k"] == "Let" and s_["pat"].get("k") == "Bind" and s_["pat"].get("name") == V:
+                                vid = s_["pat"]["id"]
+                pre_v = FL_["pre"].env.get(vid) if vid is not None else None
+                ups = [e for e in effs if e[0] in ("opassign", "assign") and ((e[0] == "opassign" and e[2] == ("place", V, ())) or (e[0] == "assign" and e[1] == ("place", V, ())))]
+                cnt = mk_field(mk_field(R.ELEM, "class"), X + "_len")
+                up_ok = len(ups) == 1 and ((ups[0][0] == "opassign" and ups[0][1] == "Add" and strip_cast_t(ups[0][3]) == cnt)
+                                           or (ups[0][0] == "assign" and ups[0][2] == S.lin_norm([(("loop", V, idx), 1), (cnt, 1)])))
+                if pre_v == S.lit_int(0) and up_ok:
+                    good = True
+                    if not any("counter-pairing" in i_["key"] for i_ in rep.instances):
+                        import builder_rules as _BR
+                        _BR.check_method_effects(fx, rep, rule, "cache")
             rep.check(rule, key if not good else "%s/tiling/%s_offset" % (rule, X), good, loc=F.loc(FL_["node"]),
                       found="%s_offset <- %s" % (X, S.tstr(got) if got else "unassigned"),
                       expected="%s_offset <- len(%s) = start of this class's entries in the %s section" % (X, vec, X))
